@@ -1725,6 +1725,31 @@ set_comp_cast(struct lyxp_set *trg, const struct lyxp_set *src, enum lyxp_set_ty
 }
 
 /**
+ * @brief Learn whether strings compared with values of a type need to be canonized.
+ *
+ * @param[in] type Type to check.
+ * @return Whether any valid value of the built-in type is its own canonical value.
+ */
+static ly_bool
+set_comp_type_is_canonical(const struct lysc_type *type)
+{
+    if ((type->basetype == LY_TYPE_STRING) && (type->plugin->store == lyplg_type_store_string)) {
+        /* string */
+        return 1;
+    }
+    if ((type->basetype == LY_TYPE_BOOL) && (type->plugin->store == lyplg_type_store_boolean)) {
+        /* boolean */
+        return 1;
+    }
+    if ((type->basetype == LY_TYPE_ENUM) && (type->plugin->store == lyplg_type_store_enum)) {
+        /* enumeration */
+        return 1;
+    }
+
+    return 0;
+}
+
+/**
  * @brief Set content canonization for comparisons.
  *
  * @param[in,out] set Set to canonize.
@@ -1755,16 +1780,7 @@ set_comp_canonize(struct lyxp_set *set, const struct lyxp_set_node *xp_node)
     }
 
     /* check for built-in types without required canonization */
-    if ((type->basetype == LY_TYPE_STRING) && (type->plugin->store == lyplg_type_store_string)) {
-        /* string */
-        return LY_SUCCESS;
-    }
-    if ((type->basetype == LY_TYPE_BOOL) && (type->plugin->store == lyplg_type_store_boolean)) {
-        /* boolean */
-        return LY_SUCCESS;
-    }
-    if ((type->basetype == LY_TYPE_ENUM) && (type->plugin->store == lyplg_type_store_enum)) {
-        /* enumeration */
+    if (set_comp_type_is_canonical(type)) {
         return LY_SUCCESS;
     }
 
@@ -7837,24 +7853,50 @@ eval_name_test_try_compile_predicate_append(const struct lyxp_expr *exp, uint32_
         uint32_t *pred_len)
 {
     LY_ERR rc = LY_SUCCESS;
-    uint32_t i;
+    uint32_t i, nested_pred = 0;
     const struct lyd_node *siblings;
     struct lyd_node *ctx_node;
     const struct lysc_node *sparent, *cur_scnode;
     struct lyxp_expr *val_exp = NULL;
     struct lyxp_set set2 = {0};
-    const char *ptr;
+    const struct lysc_type *val_type, *key_type;
+    const char *ptr, *canon = NULL;
     char quot;
+    ly_bool node_val = 0;
 
-    /* the value must not depend on the context position or on the sibling instances of the context node */
+    /* the value must not depend on the context node, its position, or its sibling instances */
     for (i = tok_idx; i <= end_tok_idx; ++i) {
         ptr = exp->expr + exp->tok_pos[i];
-        if (exp->tokens[i] == LYXP_TOKEN_FUNCNAME) {
+        switch (exp->tokens[i]) {
+        case LYXP_TOKEN_BRACK1:
+            ++nested_pred;
+            break;
+        case LYXP_TOKEN_BRACK2:
+            --nested_pred;
+            break;
+        case LYXP_TOKEN_FUNCNAME:
             if (!ly_strncmp("position", ptr, exp->tok_len[i]) || !ly_strncmp("last", ptr, exp->tok_len[i])) {
                 rc = LY_ENOT;
                 goto cleanup;
             }
-        } else if (exp->tokens[i] == LYXP_TOKEN_AXISNAME) {
+            if (nested_pred) {
+                /* different context node */
+                break;
+            }
+
+            if (!ly_strncmp("lang", ptr, exp->tok_len[i])) {
+                /* uses the context node */
+                rc = LY_ENOT;
+                goto cleanup;
+            } else if ((i + 2 <= end_tok_idx) && (exp->tokens[i + 2] == LYXP_TOKEN_PAR2) &&
+                    ly_strncmp("current", ptr, exp->tok_len[i]) && ly_strncmp("true", ptr, exp->tok_len[i]) &&
+                    ly_strncmp("false", ptr, exp->tok_len[i])) {
+                /* no arguments, the context node is used instead */
+                rc = LY_ENOT;
+                goto cleanup;
+            }
+            break;
+        case LYXP_TOKEN_AXISNAME:
             switch (str2axis(ptr, exp->tok_len[i])) {
             case LYXP_AXIS_FOLLOWING:
             case LYXP_AXIS_FOLLOWING_SIBLING:
@@ -7865,6 +7907,27 @@ eval_name_test_try_compile_predicate_append(const struct lyxp_expr *exp, uint32_
             default:
                 break;
             }
+        /* fall through */
+        case LYXP_TOKEN_NAMETEST:
+        case LYXP_TOKEN_NODETYPE:
+        case LYXP_TOKEN_DOT:
+        case LYXP_TOKEN_DDOT:
+        case LYXP_TOKEN_AT:
+            if (nested_pred) {
+                /* different context node */
+                break;
+            }
+
+            if ((i == tok_idx) || ((exp->tokens[i - 1] != LYXP_TOKEN_OPER_PATH) &&
+                    (exp->tokens[i - 1] != LYXP_TOKEN_OPER_RPATH) && (exp->tokens[i - 1] != LYXP_TOKEN_DCOLON) &&
+                    (exp->tokens[i - 1] != LYXP_TOKEN_AT))) {
+                /* first step of a relative path, it is evaluated for every instance of the context node */
+                rc = LY_ENOT;
+                goto cleanup;
+            }
+            break;
+        default:
+            break;
         }
     }
 
@@ -7921,9 +7984,48 @@ eval_name_test_try_compile_predicate_append(const struct lyxp_expr *exp, uint32_
         rc = LY_ENOT;
         goto cleanup;
     }
+    if (set2.type == LYXP_SET_NODE_SET) {
+        if (set2.used != 1) {
+            /* an empty node set is never equal to the key, several nodes must all be compared with it */
+            rc = LY_ENOT;
+            goto cleanup;
+        }
+
+        /* the key is compared with the node as a string canonized in the type of the node, which must be no change */
+        node_val = 1;
+        if ((set2.val.nodes[0].type == LYXP_NODE_ELEM) && set2.val.nodes[0].node->schema &&
+                (set2.val.nodes[0].node->schema->nodetype & LYD_NODE_TERM)) {
+            val_type = ((struct lyd_node_term *)set2.val.nodes[0].node)->value.realtype;
+            key_type = ((struct lysc_node_leaf *)pred_node)->type;
+            if (key_type->basetype == LY_TYPE_LEAFREF) {
+                key_type = ((struct lysc_type_leafref *)key_type)->realtype;
+            }
+            if (!set_comp_type_is_canonical(val_type) && ((val_type->basetype != key_type->basetype) ||
+                    (val_type->basetype == LY_TYPE_UNION))) {
+                rc = LY_ENOT;
+                goto cleanup;
+            }
+        } else if (set2.val.nodes[0].type != LYXP_NODE_TEXT) {
+            rc = LY_ENOT;
+            goto cleanup;
+        }
+    }
 
     /* cast it into a string */
     LY_CHECK_GOTO(rc = lyxp_set_cast(&set2, LYXP_SET_STRING), cleanup);
+
+    if (node_val) {
+        /* the lookup uses the value in the type of the key, which must be no change either */
+        rc = lyd_value_validate(set->ctx, pred_node, set2.val.str, strlen(set2.val.str), NULL, NULL, &canon);
+        if (rc == LY_EINCOMPLETE) {
+            rc = LY_SUCCESS;
+        }
+        LY_CHECK_GOTO(rc, cleanup);
+        if (strcmp(canon, set2.val.str)) {
+            rc = LY_ENOT;
+            goto cleanup;
+        }
+    }
 
     /* append the JSON predicate */
     *pred = ly_realloc(*pred, *pred_len + 1 + strlen(pred_node->name) + 2 + strlen(set2.val.str) + 3);
@@ -7934,6 +8036,7 @@ eval_name_test_try_compile_predicate_append(const struct lyxp_expr *exp, uint32_
 cleanup:
     lyxp_expr_free(set->ctx, val_exp);
     lyxp_set_free_content(&set2);
+    lydict_remove(set->ctx, canon);
     return rc;
 }
 
